@@ -181,16 +181,18 @@ def _one_field_cases(tier):
     rng = np.random.default_rng(seed * 7907 + 13)  # enumeration parameters only; part of the deterministic case list
     for rep in range(1 if tier == "quick" else 6):
         for i in range(len(ONE_FIELD)):
-            for order in ([(seed + i + rep) % 2] if tier == "quick" else [0, 1]):
-                mode = "Diffuse" if rng.random() < 0.75 else "Target"
-                yield {
-                    "field": i, "order": order, "mode": mode, "alt_pick": seed + rep + order, "n": int(rng.choice([40, 120])),
-                    "spectrum": [{"id": "monospectrum", "log_nu_energy": float(rng.choice([9.0, 10.5]))}, {"id": "powerspectrum", "index": 2.0, "lower_bound": 8.0, "upper_bound": 11.0}][int(rng.integers(0, 2))],
-                    "cloud": [{"id": "no_cloud"}, {"id": "monocloud", "altitude": 4.0}, {"id": "pressure_map", "month": int(rng.integers(1, 13))}][int(rng.integers(0, 3))],
-                    "optical": True, "radio": True, "det": float(rng.choice([525.0, 2000.0, 400.0])), "lat": 0.3, "lon": 1.1,
-                    "ra": float(rng.uniform(0, 6.28)), "dec": float(rng.uniform(-0.6, 0.6)), "aim": [float(rng.uniform(0.2, 0.8)), float(rng.uniform(0, 6.28))],
-                    "afl": math.radians(7.0), "seed": int(rng.integers(0, 2**31 - 1)), "scheds": [], "prio": list(range(12)), "workers": 1,
-                }
+            alts = ONE_FIELD[i][2] if isinstance(ONE_FIELD[i][2], list) else [ONE_FIELD[i][2]]
+            for a_i in range(len(alts)):
+                for order in ([(seed + i + rep + a_i) % 2] if tier == "quick" else [0, 1]):
+                    mode = "Diffuse" if rng.random() < 0.75 else "Target"
+                    yield {
+                        "field": i, "order": order, "mode": mode, "alt_pick": a_i, "n": int(rng.choice([40, 120])),
+                        "spectrum": [{"id": "monospectrum", "log_nu_energy": float(rng.choice([9.0, 10.5]))}, {"id": "powerspectrum", "index": 2.0, "lower_bound": 8.0, "upper_bound": 11.0}][int(rng.integers(0, 2))],
+                        "cloud": [{"id": "no_cloud"}, {"id": "monocloud", "altitude": 4.0}, {"id": "pressure_map", "month": int(rng.integers(1, 13))}][int(rng.integers(0, 3))],
+                        "optical": True, "radio": True, "det": float(rng.choice([525.0, 2000.0, 400.0])), "lat": 0.3, "lon": 1.1,
+                        "ra": float(rng.uniform(0, 6.28)), "dec": float(rng.uniform(-0.6, 0.6)), "aim": [float(rng.uniform(0.2, 0.8)), float(rng.uniform(0, 6.28))],
+                        "afl": math.radians(7.0), "seed": int(rng.integers(0, 2**31 - 1)), "scheds": [], "prio": list(range(12)), "workers": 1,
+                    }
 
 
 def body_one_field(case):
